@@ -1149,3 +1149,55 @@ Proof.
   intro s. unfold is_valid_python_identifier, valid_name. destruct s as [|c r]; [reflexivity|].
   cbn [nonempty andb]. destruct (is_ident (c :: r)); destruct (is_kw (c :: r)); reflexivity.
 Qed.
+
+(* ================================================================= clean_auto_generated_operation_id *)
+Section CleanProofs.
+  Variables (u_lower : N -> str) (u_ign u_cased : N -> bool).
+
+  Lemma prefixb_firstn : forall n (s : str), prefixb (firstn n s) s = true.
+  Proof.
+    induction n as [|n IH]; intros [|c s]; simpl; try reflexivity. rewrite N.eqb_refl. apply IH.
+  Qed.
+
+  (* the cleaned id is the id itself or a non-empty prefix of it — for every id, method and path, any Unicode oracle *)
+  Theorem clean_op_id_prefix : forall op_id method path,
+    let r := clean_op_id u_lower u_ign u_cased op_id method path in
+    r = op_id \/ (r <> [] /\ prefixb r op_id = true).
+  Proof.
+    intros op_id method path. cbv zeta. unfold clean_op_id.
+    destruct (negb (suffixb _ (py_lower u_lower u_ign u_cased op_id))); [left; reflexivity|].
+    destruct (norm_path path) as [|c np]; [left; reflexivity|].
+    destruct (suffixb _ _); [|left; reflexivity].
+    destruct (drop_last _ (drop_last _ op_id)) as [|x pre] eqn:E; [left; reflexivity|].
+    right. split; [discriminate|]. rewrite <- E. unfold drop_last.
+    set (w := firstn _ op_id).
+    assert (P : forall a b c : str, prefixb a b = true -> prefixb b c = true -> prefixb a c = true).
+    { induction a as [|x0 a IH]; intros [|y b] [|z c0]; simpl; try reflexivity; try discriminate.
+      intros H1 H2. apply andb_true_iff in H1, H2. destruct H1 as [H1 H1'], H2 as [H2 H2'].
+      apply N.eqb_eq in H1, H2. subst. rewrite N.eqb_refl. simpl. eapply IH; eauto. }
+    apply (P _ w); [apply prefixb_firstn | subst w; apply prefixb_firstn].
+  Qed.
+
+  (* hence (with method_name_valid) every operation gets a valid method name under the CLEAN naming strategy too *)
+  Theorem clean_op_id_method_valid : forall op_id method path,
+    valid_name (method_name (clean_op_id u_lower u_ign u_cased op_id method path)) = true.
+  Proof. intros. apply method_name_valid. Qed.
+End CleanProofs.
+
+Definition w_fastapi : str := [99;114;101;97;116;101;95;100;101;116;97;105;108;115;95;100;101;116;97;105;108;115;95;112;111;115;116].
+Lemma clean_op_id_example : forall u_lower u_ign u_cased,
+  clean_op_id u_lower u_ign u_cased w_fastapi [80;79;83;84] [47;100;101;116;97;105;108;115]
+  = [99;114;101;97;116;101;95;100;101;116;97;105;108;115].      (* create_details_details_post, POST, /details -> create_details *)
+Proof. intros. vm_compute. reflexivity. Qed.
+
+(* ================================================================= _to_module_name vs sanitize_module_name *)
+(* to_module_name_agrees : forall s, ASCII identifier s -> to_module_name_ascii s = module_name_tok s   is FALSE:
+   the second snake-caser (used as a fall-back for discriminator imports) does not split digits from letters and
+   has no keyword / reserved-name suffix.  Agreement on letters-only, non-reserved names is NOT proved (two
+   fuel-based scanners with different strides); it is tested on every run (oracle in harness/prop_C20.py). *)
+Definition w_UserV2 : str := [85;115;101;114;86;50].
+Definition w_List : str := [76;105;115;116].
+Lemma refuted_to_module_name_agrees :
+  is_ident w_UserV2 = true /\ to_module_name_ascii w_UserV2 <> module_name_tok w_UserV2
+  /\ is_ident w_List = true /\ to_module_name_ascii w_List <> module_name_tok w_List.
+Proof. repeat split; vm_compute; try reflexivity; discriminate. Qed.
